@@ -2,7 +2,7 @@ import Goirc.GenCheck
 import Goirc.GenCheck.Commands
 import Goirc.Model.Client
 /-!
-# Generated = model: the simple built-in handlers (`h_PING`, `h_REGISTER`, `h_410`, `h_903`, `h_904`, `h_908`, `h_CTCP`) and `Line.argslen`
+# Generated = model: the simple built-in handlers (`h_PING`, `h_REGISTER`, `h_410`, `h_903`, `h_904`, `h_908`, `h_CTCP`, `handleCapNak`) and `Line.argslen`
 The client model (`Goirc/Model/Client.lean`) gives a handler as `Client → Line → HR` (new client, queued lines, `panicked`).
 The generated handler threads the generated connection state and returns `.error` where Go panics. `toClient` reads a model
 client off a generated state (the configuration fields the handlers use; `cfg.Me` is never nil in the generated code, which is
@@ -95,6 +95,12 @@ theorem gen_Conn_h_410 (ext : UnicodeExt) (nn : Bytes → Bytes) (conn : Gen.Con
 theorem gen_Conn_h_903 (ext : UnicodeExt) (nn : Bytes → Bytes) (conn : Gen.Conn) (l : Gen.Line) :
     agrees conn (Gen.Conn_h_903 conn l) (h_903 (toClient ext nn conn) (toModel l)) := by
   simp only [Gen.Conn_h_903, h_903, gen_Conn_Cap ext, emit_toClient, C_CAP_END]
+  exact agrees_queued ext conn _ _
+
+/-- [C19] `handleCapNak` as generated from handlers.go: CAP END, and the client - the capabilities it holds included - is left as it was -/
+theorem gen_Conn_handleCapNak (ext : UnicodeExt) (nn : Bytes → Bytes) (conn : Gen.Conn) (caps : List Bytes) :
+    agrees conn (Gen.Conn_handleCapNak conn caps) (handleCapNak (toClient ext nn conn) caps) := by
+  simp only [Gen.Conn_handleCapNak, handleCapNak, gen_Conn_Cap ext, emit_toClient, C_CAP_END]
   exact agrees_queued ext conn _ _
 
 /-- [C19] `h_904` as generated from handlers.go ends the negotiation -/
